@@ -1,10 +1,11 @@
 SPECIFICATION Spec
 CONSTANTS
-  Profile = "marker"
-  MaxW = 2
-  MaxWc = 2
-  MaxDepth = 1
+  Profile = "ifuses"
+  MaxW = 3
+  MaxWc = 0
+  MaxDepth = 0
   Tights = {FALSE}
   EmitOpen = FALSE
+INVARIANT ChainRefines
 INVARIANT Emit
 CHECK_DEADLOCK FALSE
